@@ -32,15 +32,20 @@ for p in props:
 # the source translator (harness/py2lean.py, DESIGN I.3a): what is added to the claim of the properties it serves
 SRC = {
     "ip": (" On the source as it reads on this run: the address core (_anonymize_bits, _deanonymize_bits, anonymize, deanonymize, the seeding loop, _is_mask, "
-           "_anonymize_match) is translated from the source text into Lean on every run and proved equal to the model (Proofs/SrcTieIp, SrcTieText); "
-           "Props/SrcIp restates history independence for the translated functions and proves that the stateful _anonymize_match of the source returns "
-           "the pure text-level replacement on every reachable memo.", ["C01", "C02", "C03", "C04", "C05", "C17"]),
-    "secrets": (" The class decision _check_sensitive_item_format (order of the six tests, their pattern literals, the class each selects) is translated "
-                "from the source text on every run and proved equal to the model's classify (Props/SrcSecrets).", ["C07", "C08", "C09"]),
+           "should_anonymize, _anonymize_match, anonymize_ip_addr) is translated from the source text into Lean on every run and proved equal to the model "
+           "(Proofs/SrcTieIp, SrcTieText); Props/SrcIp restates history independence for the translated functions and proves that the stateful "
+           "_anonymize_match / anonymize_ip_addr of the source return the pure text-level replacement (IpText.anonMatch / anonIpLine) on every reachable memo, "
+           "for both families, for whole lines and whole texts.", ["C01", "C02", "C03", "C04", "C05", "C06", "C17"]),
+    "secrets": (" _check_sensitive_item_format, _extract_enclosing_text, _anonymize_value and replace_matching_item are translated from the source text on "
+                "every run (loops with break/continue, try/except, the lookup table as state) and proved equal to the model's classify, extractEnclosing, "
+                "anonymizeValue and replaceMatchingItem (Proofs/SrcTieSecrets); Props/SrcSecrets restates the C07/C08 theorems for the translated functions.",
+                ["C07", "C08", "C09"]),
+    "jun": (" The arithmetic of the codec (_gap_encode, _gap, _fixedc) is translated from the source text on every run, on alphabet indices, and proved equal "
+            "to the model's emit/gapsOf, gapBack and fixedc (Props/SrcJun).", ["C18"]),
     "as": (" _generate_as_number_replacement is translated from the source text on every run and proved equal to the model "
            "(Props/SrcAs: block preservation and range refusal for the translated function).", ["C11"]),
-    "lines": (" The loop body of FileAnonymizer.anonymize_io (which stages, in which order, under which conditions) is translated from the source text on "
-              "every run and proved equal to the model's lineStep (Props/SrcLines).", ["C12", "C13", "C14", "C15"]),
+    "lines": (" The loop body of FileAnonymizer.anonymize_io (which stages, in which order, under which conditions) and replace_matching_item are translated "
+              "from the source text on every run and proved equal to the model's lineStep / replaceMatchingItem (Props/SrcLines).", ["C12", "C13", "C14", "C15"]),
     "cli": (" main() after _parse_args is translated from the source text on every run and proved to decide exactly as the model's decideArgs for every "
             "accepted argument vector (Props/SrcCli).", ["C19"]),
 }
